@@ -41,7 +41,7 @@ def stack_budget(tier):
     t0 = time.time()
     res = dict(name='c07_stack_budget', verdict='error', wall=0, rss_kb=0, n_props=1, failed=[], cover_total=0, cover_sat=0, detail='',
                bounds='limits read from the headers, frames from gcc -fstack-usage (-O2, as in the release build)', desc='z3: sum(limit x frame of each guarded recursion cycle) < 8 MiB')
-    work = os.path.join(HERE, '.work', 'C07_%s' % tier, 'budget'); os.makedirs(work, exist_ok=True)
+    work = os.path.join(os.environ.get('VERIF_WORK_DIR', os.path.join(HERE, '.work')), 'C07_%s' % tier, 'budget'); os.makedirs(work, exist_ok=True)
     inc = vrun.prepare_inc(work)
     units = ['mmd.c', 'token_pairs.c', 'html.c', 'latex.c', 'beamer.c', 'memoir.c', 'opendocument-content.c', 'opml.c', 'itmz.c', 'parser.c', 'writer.c', 'token.c']
     su = {}
